@@ -58,6 +58,7 @@ let run_report ic =
           let by_name rs = if many then List.sort (fun a b -> compare (nm a.tr_name) (nm b.tr_name)) rs else rs in
           let outs =
             if usage then (match ob.ob_stdout with SDNothing -> "empty" | _ -> "nonempty")
+            else if exit <> 0 && not f.f_quiet then "unconstrained"
             else if f.f_vars then
               (match ob.ob_stdout with
                | SDVars l -> "vars=" ^ String.concat "," (List.map (fun (n, v) -> vnames.(int_of_nat n) ^ "=" ^ hexs v) l)
